@@ -604,7 +604,10 @@ impl<'a> Parser<'a> {
 
         let mut duration: ParsedDuration = ParsedDuration::new();
         let mut got_t: bool = false;
+        let mut got_w: bool = false;
         let mut last_had_fraction = false;
+        // Designators must come in the order Y, M, (W), D, H, M, S, each at most once
+        let mut last_rank: u8 = 0;
 
         loop {
             match self.current {
@@ -630,6 +633,13 @@ impl<'a> Parser<'a> {
                     if got_t {
                         match self.current {
                             'H' => {
+                                if last_rank >= 5 || got_w {
+                                    return Err(
+                                        self.parse_error("Duration units out of order".to_string())
+                                    );
+                                }
+                                last_rank = 5;
+
                                 if duration.minutes != 0
                                     || duration.seconds != 0
                                     || duration.microseconds != 0
@@ -646,6 +656,13 @@ impl<'a> Parser<'a> {
                                 }
                             }
                             'M' => {
+                                if last_rank >= 6 || got_w {
+                                    return Err(
+                                        self.parse_error("Duration units out of order".to_string())
+                                    );
+                                }
+                                last_rank = 6;
+
                                 if duration.seconds != 0 || duration.microseconds != 0 {
                                     return Err(
                                         self.parse_error("Duration units out of order".to_string())
@@ -659,6 +676,13 @@ impl<'a> Parser<'a> {
                                 }
                             }
                             'S' => {
+                                if last_rank >= 7 || got_w {
+                                    return Err(
+                                        self.parse_error("Duration units out of order".to_string())
+                                    );
+                                }
+                                last_rank = 7;
+
                                 duration.seconds = value;
 
                                 if let Some(fraction) = op_fraction {
@@ -674,6 +698,13 @@ impl<'a> Parser<'a> {
                     } else {
                         match self.current {
                             'Y' => {
+                                if last_rank >= 1 || got_w {
+                                    return Err(
+                                        self.parse_error("Duration units out of order".to_string())
+                                    );
+                                }
+                                last_rank = 1;
+
                                 if last_had_fraction {
                                     return Err(self.parse_error(
                                         "Fractional years in duration are not supported"
@@ -690,6 +721,13 @@ impl<'a> Parser<'a> {
                                 duration.years = value;
                             }
                             'M' => {
+                                if last_rank >= 2 || got_w {
+                                    return Err(
+                                        self.parse_error("Duration units out of order".to_string())
+                                    );
+                                }
+                                last_rank = 2;
+
                                 if last_had_fraction {
                                     return Err(self.parse_error(
                                         "Fractional months in duration are not supported"
@@ -706,6 +744,14 @@ impl<'a> Parser<'a> {
                                 duration.months = value;
                             }
                             'W' => {
+                                if last_rank > 0 {
+                                    return Err(self.parse_error(
+                                        "Basic format durations cannot have weeks".to_string(),
+                                    ));
+                                }
+                                last_rank = 3;
+                                got_w = true;
+
                                 if duration.years != 0 || duration.months != 0 {
                                     return Err(self.parse_error(
                                         "Basic format durations cannot have weeks".to_string(),
@@ -719,6 +765,13 @@ impl<'a> Parser<'a> {
                                 }
                             }
                             'D' => {
+                                if last_rank >= 4 || got_w {
+                                    return Err(
+                                        self.parse_error("Duration units out of order".to_string())
+                                    );
+                                }
+                                last_rank = 4;
+
                                 if duration.weeks != 0 {
                                     return Err(self.parse_error(
                                         "Week format durations cannot have days".to_string(),
